@@ -3490,7 +3490,9 @@ impl PartialEq<XmlText> for XmlText {
 
 impl fmt::Display for XmlText {
     fn fmt(&self, f: &mut fmt::Formatter<'_>) -> Result<(), fmt::Error> {
-        write!(f, "{}", self.text.as_str())
+        // '>' must not follow ']]' in content, and the ']]' may be the end of the previous
+        // text node: always write it as a reference.
+        write!(f, "{}", self.text.replace('>', "&gt;"))
     }
 }
 
